@@ -15,6 +15,7 @@
 package dmap
 
 import (
+	"bytes"
 	"context"
 	"errors"
 	"fmt"
@@ -350,6 +351,10 @@ func (dm *DMap) putOnCluster(e *env) error {
 		if isKeyExpired(current.TTL()) {
 			return ErrKeyNotFound
 		}
+		if e.putConfig.ifValue != nil && !bytes.Equal(current.Value(), e.putConfig.ifValue) {
+			// Lease: the lock is not the caller's any more.
+			return ErrNoSuchLock
+		}
 		e.value = make([]byte, len(current.Value()))
 		copy(e.value, current.Value())
 	}
@@ -448,6 +453,8 @@ type PutConfig struct {
 	HasNX         bool
 	HasXX         bool
 	OnlyUpdateTTL bool
+	// ifValue: update the TTL only if the key still holds this value (Lease).
+	ifValue []byte
 }
 
 // Put sets the value for the given key. It overwrites any previous value
